@@ -11,6 +11,8 @@ inputs of equal block count and different block sizes; every operation taking an
 harness/props_ext/c03_layout.py: block layouts — expression families whose optimized root lands on another layout than the
 advertised one with the SAME block counts (steered), and every public Array method / da function that derives chunks
 arithmetically on arrays whose axes have equal block counts and different sizes; shape, dtype and content of every block.
+harness/props_ext/c03_dtypes.py: dtype representations (non-native byte order, widths, units, structured) through every operation that
+promotes operands or declares a dtype; every block's dtype compared exactly (byte order included) with the advertised one.
 """
 from __future__ import annotations
 
@@ -110,7 +112,17 @@ def run(ctx, replay=None):
         "tile, pad modes, insert/delete/append, diff, cumulative ops, to_delayed/from_delayed/store round trips, axis permutations, flips/"
         "rot90, squeeze/expand_dims/atleast_nd, blocks/partitions, map_blocks/blockwise/map_overlap with adjusted chunks, coarsen, topk, "
         "stacking, tri*/diag*, reductions, products, fft, linalg, creation, all ufuncs) on arrays of rank 1-3 whose AXES have equal block "
-        "counts and different block sizes, against the same NumPy call; distinct = (entry, rank)"
+        "counts and different block sizes, against the same NumPy call; distinct = (entry, rank).  Plus (props_ext/c03_dtypes): dtype REPRESENTATIONS — sources "
+        "in non-native byte order ('>i4','>f8','>c16','>u2','>M8[s]',…), other widths, bool, float16, longdouble, datetime/timedelta units, strings, structured "
+        "(from_array / astype node / map_blocks / from_delayed) through every promoting or dtype-declaring operation (concatenate/stack/hstack/vstack/dstack/block/"
+        "append/insert, where with array/Python/NumPy-scalar condition, choose, select, binary ufuncs with arrays / Python scalars / NumPy scalars / 0-d arrays in "
+        "both orders and spellings and dtype=, unary ufuncs, astype with every casting form / copy=False / same dtype / byte-order-only, view, reductions and "
+        "cumulative ops with dtype= (also non-native), tensordot/dot/matmul/einsum/outer, pad, diff, round/clip, isin, searchsorted, digitize, setitem, *_like, "
+        "creation with dtype=, structure-only ops, map_blocks/map_overlap/store), then a selection/rechunk/concatenate on top: every block's dtype compared "
+        "EXACTLY (byte order included) with the advertised one, optimized and not, plus .blocks[i], to_delayed() and compute(); advertised dtype vs NumPy's "
+        "(kind everywhere; byte order exactly except on the operations where dask_array normalises deliberately, which are noted as control); a deterministic "
+        "core holds every operand-promoting operation on (swapped, native) pairs of the same type in both orders; distinct = (op, fn, operand representations, "
+        "dtype= given, follow-up)"
     )
     if replay is not None and replay.get("case", {}).get("reshape"):  # harness/props_ext/c01_reshape.py
         from harness.props_ext import c01_reshape
@@ -118,6 +130,9 @@ def run(ctx, replay=None):
     if replay is not None and replay.get("case", {}).get("layout"):  # harness/props_ext/c03_layout.py
         from harness.props_ext import c03_layout
         return c03_layout.replay(ctx, replay["case"])
+    if replay is not None and replay.get("case", {}).get("dtypes"):  # harness/props_ext/c03_dtypes.py
+        from harness.props_ext import c03_dtypes
+        return c03_dtypes.replay(ctx, replay["case"])
     if replay is not None and (replay.get("case", {}).get("mbshape") or replay.get("case", {}).get("xdtype")):  # harness/props_ext/c03_blocks.py
         from harness.props_ext import c03_blocks
         return c03_blocks.replay(ctx, replay["case"])
@@ -170,6 +185,11 @@ def run(ctx, replay=None):
     from harness.props_ext import c03_layout
     c03_layout.run(ctx)
     lap("c03_layout")
+    # dtype REPRESENTATION variants (non-native byte order, widths, units, structured) through every promoting / dtype-declaring operation:
+    # every block's dtype (byte order included) vs advertised, advertised vs NumPy, .blocks / to_delayed / compute
+    from harness.props_ext import c03_dtypes
+    c03_dtypes.run(ctx)
+    lap("c03_dtypes")
     from harness.props_ext import c01_reshape  # reshape planner: per-block shapes vs advertised chunks (Props/C03Reshape.lean; rsh.*)
     c01_reshape.run(ctx)
     lap("reshape")
